@@ -207,6 +207,12 @@ func (c *Ctx) stdRenderCases(nFiles, nLayouts, nPages, nEnvs int, o gen.Opts) []
 		f := gen.GenFile(newRand(c.R.Int63()), o, nLayouts, nPages)
 		prepFile(f)
 		p, src := f.Print()
+		if i%3 == 2 {
+			// every third file as an editor that writes CRLF line ends would save it
+			f.CRLF = true
+			src = strings.ReplaceAll(src, "\n", "\r\n")
+			p.Feat["file.crlf-line-ends"]++
+		}
 		rc := &RenderCase{File: f, Printer: p, Src: src}
 		for _, t := range f.Templates {
 			rc.Names = append(rc.Names, t.Name)
